@@ -136,6 +136,9 @@ package section
 
 //@ func Split(fset, filename, content) (prog, err)
 //@   requires fset != nil
+//@   at call (*go/token.FileSet).AddFile assert [C13,C19] the-patch-is-registered-under-its-name-with-its-size: arg0 == fset && arg1 == filename && arg3 == len(content0)
+//@   at call (*go/token.File).SetLinesForContent assert [C13,C19] the-line-table-is-built-from-the-bytes-given: arg1 == content0
+//@   at call (*parse/section.programSplitter).next assert [C13,C19] the-splitter-reads-the-very-bytes-the-line-table-was-built-from: arg0.content == content0 && arg0.file == ret("(*go/token.FileSet).AddFile", 0) && arg0.offset == 0
 //@   ensures-assumed err == nil ==> forall k int {prog[k]} :: 0 <= k && k < len(prog) ==> prog[k] != nil && (forall l int {prog[k].Meta[l]} :: 0 <= l && l < len(prog[k].Meta) ==> prog[k].Meta[l] != nil) && (forall l int {prog[k].Patch[l]} :: 0 <= l && l < len(prog[k].Patch) ==> prog[k].Patch[l] != nil) && (forall l int, m int {prog[k].Patch[l], prog[k].Patch[m]} :: 0 <= l && l < m && m < len(prog[k].Patch) ==> prog[k].Patch[l] != prog[k].Patch[m])
 //@   assigns nothing
 
